@@ -74,6 +74,7 @@ def entryStr : Entry → String
   | .start b => s!"S{b}"
   | .arrive b => s!"V{b}"
   | .refused b => s!"X{b}"
+  | .fuelOut => "FUEL"
   | .handle b v k => s!"E{b}={v.render}@{k}"
   | .restore b => s!"P{b}"
   | .async b u t => s!"A{b}" ++ (if u then "u" else "i") ++ (if t > 0 then "+" else "0")
